@@ -78,6 +78,8 @@ func (b *RingUnbounded[T]) process() {
 			if len(vs) == 0 && !b.closed {
 				b.closedMutex.RUnlock()
 				b.cond.Wait()
+				// 被唤醒后重新读取：唤醒来自 Write（数据已在 ring 中）或 Close，否则关闭时会丢失这些数据
+				vs = b.ring.ReadAll()
 			} else {
 				b.closedMutex.RUnlock()
 			}
